@@ -38,7 +38,7 @@ def cases(tier, seed):
                         npm=npm, seed=int(rng.integers(1 << 30)), load_factor=float(np.round(rng.choice([1.0, 2.5, -1.0, rng.uniform(0.2, 4)]), 3)),
                         mrho=float(np.round(10 ** rng.uniform(2.5, 4), 1)), wwr=float(np.round(rng.uniform(1.0, 2.5), 3)),
                         fuel_mass=float(np.round(10 ** rng.uniform(2, 5), 1)), reserve=float(np.round(rng.choice([0.0, rng.uniform(100, 2e4)]), 1)),
-                        fuel_density=float(np.round(rng.uniform(700, 850), 1)), fem_origin=float(np.round(rng.uniform(0.1, 0.7), 3))))
+                        fuel_density=float(np.round(rng.uniform(700, 850), 1)), fem_origin=float(np.round(rng.uniform(0.1, 0.7), 3)), units=bool(k % 4 == 1)))
     # the same resultants through the repository's own structures-only group (SpatialBeamAlone) for every combination of load sources
     n = 16 if tier == "quick" else 320
     for k in range(n):
@@ -80,7 +80,7 @@ def run_loads(c, o):
     npm = c["npm"]
     if npm:
         surf["n_point_masses"] = npm
-    tags = [fem, "sym" if sym else "full", "npm=%d" % npm, "relief" if c["relief"] else "norelief", "fuel" if c["fuel"] else "nofuel"]
+    tags = [fem, "sym" if sym else "full", "npm=%d" % npm, "relief" if c["relief"] else "norelief", "fuel" if c["fuel"] else "nofuel"] + (["inputs_in_other_units"] if c.get("units") else [])
     o.tags = tags
     p = om.Problem(reports=False)
     ivc = om.IndepVarComp()
@@ -89,18 +89,27 @@ def run_loads(c, o):
     A_int = 10 ** rng.uniform(-2, 0, ny - 1)
     for q, v, u in (("A", A, "m**2"), ("Iy", A**2 * 0.1, "m**4"), ("Iz", A**2 * 0.2, "m**4"), ("J", A**2 * 0.3, "m**4"), ("A_int", A_int, "m**2")):
         ivc.add_output(q, val=v, units=u)
-    ivc.add_output("loads", val=np.zeros((ny, 6)), units="N")
+    from openmdao.utils.units import convert_units
+
+    alt = bool(c.get("units"))  # the same SI values supplied through inputs declared in other units (OpenMDAO converts them back)
+    U = 1e-7 if alt else 0.0  # the framework's conversion factors carry about nine digits
+
+    def add(name, val, unit):
+        au = {"N": "lbf", "kg": "lbm", "m": "ft"}[unit] if alt else unit
+        ivc.add_output(name, val=convert_units(np.asarray(val, float), unit, au), units=au)
+
+    add("loads", np.zeros((ny, 6)), "N")
     ivc.add_output("load_factor", val=c["load_factor"])
-    ivc.add_output("fuel_mass", val=c["fuel_mass"], units="kg")
-    ivc.add_output("fuelburn", val=c["fuel_mass"] * 0.9, units="kg")
+    add("fuel_mass", c["fuel_mass"], "kg")
+    add("fuelburn", c["fuel_mass"] * 0.9, "kg")
     if npm:
         ylo, yhi = mesh[0, :, 1].min(), mesh[0, :, 1].max()
         loc = np.stack([rng.uniform(-2, 3, npm), rng.uniform(ylo, yhi, npm), rng.uniform(-1, 1, npm)], axis=1)
         pm = 10 ** rng.uniform(1, 4, npm)
         th = 10 ** rng.uniform(2, 5, npm) * rng.choice([1.0, 1.0, 0.0], npm)
-        ivc.add_output("point_mass_locations", val=loc, units="m")
-        ivc.add_output("point_masses", val=pm, units="kg")
-        ivc.add_output("engine_thrusts", val=th, units="N")
+        add("point_mass_locations", loc, "m")
+        add("point_masses", pm, "kg")
+        add("engine_thrusts", th, "N")
     p.model.add_subsystem("ivc", ivc, promotes=["*"])
     prom_in = ["mesh", "A", "Iy", "Iz", "J"] + (["A_int"] if fem == "wingbox" else [])
     p.model.add_subsystem("bsetup", SpatialBeamSetup(surface=surf), promotes_inputs=prom_in,
@@ -128,12 +137,12 @@ def run_loads(c, o):
     L = np.linalg.norm(np.diff(nodes, axis=0), axis=1)
     mid = 0.5 * (nodes[1:] + nodes[:-1])
     em_ref = c["mrho"] * A * L * c["wwr"]
-    o.close("mass/element_mass", p.get_val("element_mass"), em_ref, rtol=1e-12)
-    o.close("mass/structural_mass", p.get_val("structural_mass"), em_ref.sum() * (2.0 if sym else 1.0), rtol=1e-12)
+    o.close("mass/element_mass", p.get_val("element_mass"), em_ref, rtol=max(1e-12, U))
+    o.close("mass/structural_mass", p.get_val("structural_mass"), em_ref.sum() * (2.0 if sym else 1.0), rtol=max(1e-12, U))
     cg = (mid * em_ref[:, None]).sum(axis=0) / em_ref.sum()
     if sym:
         cg[1] = 0.0
-    o.close("cg/location", p.get_val("cg_location"), cg, rtol=1e-12, scale=np.abs(nodes).max())
+    o.close("cg/location", p.get_val("cg_location"), cg, rtol=max(1e-12, U), scale=np.abs(nodes).max())
     span = np.ptp(nodes[:, 1]) + 1.0
     pts = [nodes.mean(axis=0)] + [nodes.mean(axis=0) + rng.normal(size=3) * span for _ in range(2)]
     nontriv = True
@@ -147,7 +156,7 @@ def run_loads(c, o):
             fuel_mass = float(c["fuel_mass"] * rng.uniform(0.2, 1.5))
             p.set_val("load_factor", n)
             p.set_val("fuel_mass", fuel_mass, units="kg")
-            p.set_val("loads", np.zeros((ny, 6)))
+            p.set_val("loads", np.zeros((ny, 6)), units="N")
             if npm:
                 pm = 10 ** rng.uniform(1, 4, npm)
                 th = np.zeros(npm) if stage == c.get("off_stage", 1) else 10 ** rng.uniform(2, 5, npm) * rng.choice([1.0, 1.0, 0.0], npm)
@@ -165,22 +174,22 @@ def run_loads(c, o):
             fs = np.abs(W).sum()
             for P in pts:
                 F, Mo = resultant(nodes, ld, P)
-                o.close("weight_loads/force", F, [0, 0, -W.sum()], rtol=1e-11, scale=fs)
+                o.close("weight_loads/force", F, [0, 0, -W.sum()], rtol=max(1e-11, U), scale=fs)
                 Mref = np.cross(mid - P, np.stack([0 * W, 0 * W, -W], axis=1)).sum(axis=0)
-                o.close("weight_loads/moment", Mo, Mref, rtol=1e-11, scale=fs * span)
+                o.close("weight_loads/moment", Mo, Mref, rtol=max(1e-11, U), scale=fs * span)
             # every node carries half the weight of each adjacent element
             fz = np.zeros(ny)
             fz[:-1] -= W / 2
             fz[1:] -= W / 2
-            o.close("weight_loads/nodal_share", ld[:, 2], fz, rtol=1e-11, scale=np.abs(W).max())
+            o.close("weight_loads/nodal_share", ld[:, 2], fz, rtol=max(1e-11, U), scale=np.abs(W).max())
             o.close("weight_loads/no_inplane_force", ld[:, :2], 0.0, rtol=0, atol=0)
         vols_ref = A_int * L
         if fem == "wingbox":
-            o.close("fuel/volumes", p.get_val("bsetup.fuel_vols"), vols_ref, rtol=1e-12)
+            o.close("fuel/volumes", p.get_val("bsetup.fuel_vols"), vols_ref, rtol=max(1e-12, U))
             req = (c["fuel_mass"] * 0.9 + c["reserve"]) / c["fuel_density"]
             if sym:
                 req /= 2.0
-            o.close("fuel/margin", p.get_val("fvd.fuel_vol_delta"), vols_ref.sum() - req, rtol=1e-12, scale=max(vols_ref.sum(), req))
+            o.close("fuel/margin", p.get_val("fvd.fuel_vol_delta"), vols_ref.sum() - req, rtol=max(1e-12, U), scale=max(vols_ref.sum(), req))
         if c["fuel"]:
             ld = np.array(p.get_val("states.fuel_weight_loads")).real
             total_ref += ld
@@ -189,9 +198,9 @@ def run_loads(c, o):
             fs = np.abs(W).sum()
             for P in pts:
                 F, Mo = resultant(nodes, ld, P)
-                o.close("fuel_loads/force", F, [0, 0, -Wt], rtol=1e-11, scale=fs)
+                o.close("fuel_loads/force", F, [0, 0, -Wt], rtol=max(1e-11, U), scale=fs)
                 Mref = np.cross(mid - P, np.stack([0 * W, 0 * W, -W], axis=1)).sum(axis=0)
-                o.close("fuel_loads/moment", Mo, Mref, rtol=1e-11, scale=fs * span)
+                o.close("fuel_loads/moment", Mo, Mref, rtol=max(1e-11, U), scale=fs * span)
         if npm:
             ld = np.array(p.get_val("states.loads_from_point_masses"))
             total_ref += ld
@@ -199,23 +208,23 @@ def run_loads(c, o):
             fs = np.abs(Fp).sum()
             for P in pts:
                 F, Mo = resultant(nodes, ld, P)
-                o.close("point_mass/force", F, Fp.sum(axis=0), rtol=1e-11, scale=fs)
-                o.close("point_mass/moment", Mo, np.cross(loc - P, Fp).sum(axis=0), rtol=1e-11, scale=fs * span * 3)
+                o.close("point_mass/force", F, Fp.sum(axis=0), rtol=max(1e-11, U), scale=fs)
+                o.close("point_mass/moment", Mo, np.cross(loc - P, Fp).sum(axis=0), rtol=max(1e-11, U), scale=fs * span * 3)
             ld = np.array(p.get_val("states.loads_from_thrusts"))
             total_ref += ld
             Ft = np.stack([-th, 0 * th, 0 * th], axis=1)
             fs = max(np.abs(Ft).sum(), 1e-300)
             for P in pts:
                 F, Mo = resultant(nodes, ld, P)
-                o.close("thrust/force", F, Ft.sum(axis=0), rtol=1e-11, scale=fs, atol=1e-300)
-                o.close("thrust/moment", Mo, np.cross(loc - P, Ft).sum(axis=0), rtol=1e-11, scale=fs * span * 3, atol=1e-300)
+                o.close("thrust/force", F, Ft.sum(axis=0), rtol=max(1e-11, U), scale=fs, atol=1e-300)
+                o.close("thrust/moment", Mo, np.cross(loc - P, Ft).sum(axis=0), rtol=max(1e-11, U), scale=fs * span * 3, atol=1e-300)
         ext = rng.normal(size=(ny, 6)) * 1e3
-        p.set_val("loads", ext)
+        p.set_val("loads", ext, units="N")
         with warnings.catch_warnings():
             warnings.simplefilter("ignore")
             p.run_model()
         tl = np.array(p.get_val("states.total_loads"))
-        o.close("total_loads/is_sum", tl, total_ref + ext, rtol=1e-12, scale=max(np.abs(total_ref).max(), 1e3))
+        o.close("total_loads/is_sum", tl, total_ref + ext, rtol=max(1e-12, U), scale=max(np.abs(total_ref).max(), 1e3))
     o.nontrivial = nontriv
     o.info = dict(ny=ny, mass=float(em_ref.sum()))
 
